@@ -179,7 +179,7 @@ func genForm(r *rand.Rand, nv, depth int, positiveUniqOnly bool, pol int) *Form 
 func genC11(r *rand.Rand, idx int, tier string, positiveUniqOnly bool) *FormCase {
 	nv := 1 + r.Intn(5)
 	depth := 1 + r.Intn(4)
-	switch r.Intn(10) {
+	switch r.Intn(14) {
 	case 0: // exactly-one groups of every size, above and below the threshold, possibly negated
 		nv = 1 + r.Intn(9)
 		k := r.Intn(nv + 1)
@@ -194,6 +194,32 @@ func genC11(r *rand.Rand, idx int, tier string, positiveUniqOnly bool) *FormCase
 		}
 		if !positiveUniqOnly && r.Intn(4) == 0 {
 			f = &Form{Op: "not", Args: []*Form{f}}
+		}
+		return &FormCase{F: f}
+	case 2: // two large exactly-one groups over overlapping names: same end points, different or reordered middles
+		nv = 6 + r.Intn(3)
+		k := 5 + r.Intn(2)
+		perm := r.Perm(nv)
+		g1 := make([]int, k)
+		for i := range g1 {
+			g1[i] = perm[i] + 1
+		}
+		g2 := append([]int{}, g1...)
+		switch r.Intn(3) {
+		case 0: // reorder the middle
+			g2[1], g2[2] = g2[2], g2[1]
+		case 1: // replace a middle name when possible
+			if nv > k {
+				g2[1+r.Intn(k-2)] = perm[k] + 1
+			} else {
+				g2[1], g2[3] = g2[3], g2[1]
+			}
+		default:
+			r.Shuffle(len(g2), func(i, j int) { g2[i], g2[j] = g2[j], g2[i] })
+		}
+		f := &Form{Op: "and", Args: []*Form{{Op: "uniq", Vs: g1}, {Op: "uniq", Vs: g2}}}
+		if r.Intn(2) == 0 {
+			f = &Form{Op: "or", Args: []*Form{f, {Op: "var", V: 1 + r.Intn(nv)}}}
 		}
 		return &FormCase{F: f}
 	case 1: // nested or-in-and-in-or to depth 4
